@@ -73,6 +73,9 @@ class Vec:
         self.sel_mask = None
         # numpy's writeable flag of this array object (views of a read-only array are read-only, copies are writable)
         self.ro = False
+        # a float array narrower than float64 (float32 / float16): values are modelled exactly, but arithmetic or comparisons carried out
+        # in that width round differently from float64 - recorded as an event, see models_np.note_int_arith
+        self.narrow = False
 
     # ---- construction ----
     @classmethod
@@ -83,11 +86,14 @@ class Vec:
     def like(self, els, **kw):
         args = dict(kind=self.kind, dtype=self.dtype, unit=self.unit, index=self.index, tz=self.tz)
         args.update(kw)
-        return Vec.fresh(els, **args)
+        out = Vec.fresh(els, **args)
+        out.narrow = self.narrow and out.dtype == 'f8'
+        return out
 
     def view(self, idx, **kw):
         v = Vec(self.back, idx, self.kind, self.dtype, self.unit, self.index, self.tz)
         v.ro = self.ro
+        v.narrow = self.narrow
         for k, val in kw.items():
             setattr(v, k, val)
         return v
